@@ -102,7 +102,9 @@ CText(e, prec) ==
       \* CCodeMapper.map_power
       [] e.t = "Power" ->
             IF IsConstE(e.b) /\ ConstIs(e.b, 0) THEN << Numt(IntV(1)) >>
-            ELSE IF IsConstE(e.b) /\ ConstIs(e.b, 1) THEN CText(e.a, prec)
+            \* the base stays one operand under a multiplicative operator (since dbbb155)
+            ELSE IF IsConstE(e.b) /\ ConstIs(e.b, 1)
+                 THEN CText(e.a, IF prec >= PREC_PRODUCT THEN PREC_POWER ELSE prec)
             \* base*base is a product of its own under a multiplicative operator (since c984897)
             ELSE IF IsConstE(e.b) /\ ConstIs(e.b, 2)
                  THEN CText(MulSelf(e.a), IF prec >= PREC_PRODUCT THEN PREC_POWER ELSE prec)
